@@ -32,10 +32,6 @@ Proof.
   pose proof (enc_runs_len_lower t b). lia.
 Qed.
 
-(* first item of a OneIter *)
-Definition oi_first (m : mode) (v : rlvec) (it : res oneiter) : res (option (N * N)) :=
-  let* s := it in let* (_, r) := oi_next m v s in Ok r.
-
 Section Query.
   Variable m : mode.
   Variable v : rlvec.
